@@ -401,6 +401,6 @@ func plans(tier string) []mc.Plan {
 }
 
 func init() {
-	mc.Register(&mc.Check{ID: "C02", Plans: plans, Budget: map[string]int{"quick": 150, "thorough": 1800},
+	mc.Register(&mc.Check{ID: "C02", Plans: plans, Budget: map[string]int{"quick": 240, "thorough": 1800},
 		Notes: "C02: histories of 2-3 tagged RPCs on one connection; every payload/error observed by RPC r must carry r's tag; an RPC not ended by its caller with a well-behaved handler must succeed unless the connection reports closed."})
 }
